@@ -26,6 +26,11 @@ def gen(rng, tier):
     n = 70 if tier == "quick" else 900
     for t in range(n):
         c = gtio.gen_content(rng, maxs=4, maxv=6, allow_half_missing=False, multibase_ref=(t % 6 == 5), min_v=1)
+        if rng.random() < 0.2:
+            # a contig whose name is longer than the 10 characters haptools keeps in its variants array
+            for v in c["variants"]:
+                if v["chrom"] == "chrX":
+                    v["chrom"] = "chrX_KI270706v1_random"
         contigs = sorted({v["chrom"] for v in c["variants"]})
         poss = sorted({v["pos"] for v in c["variants"]})
         restrs = []
@@ -111,7 +116,7 @@ def model_req(case):
 
 
 def expected_from(case, rows, cols):
-    return {"samples": [case["samples"][i] for i in rows], "variants": [{"id": case["variants"][j]["id"], "chrom": case["variants"][j]["chrom"], "pos": case["variants"][j]["pos"], "alleles": case["variants"][j]["alleles"]} for j in cols], "data": [[pg_norm(case["data"][i][j]) for j in cols] for i in rows]}
+    return {"samples": [case["samples"][i] for i in rows], "variants": [{"id": case["variants"][j]["id"], "chrom": case["variants"][j]["chrom"][:10], "pos": case["variants"][j]["pos"], "alleles": case["variants"][j]["alleles"]} for j in cols], "data": [[pg_norm(case["data"][i][j]) for j in cols] for i in rows]}
 
 
 def pg_norm(c):
@@ -178,10 +183,11 @@ def oracle(case, obs):
             f = obs["full"][kind]
             rows = [i for i, s in enumerate(f["samples"]) if r["samples"] is None or s in r["samples"]]
             cols = []
+            written_chrom = {v["id"]: v["chrom"] for v in case["variants"]}  # the loaded array keeps 10 characters only
             for j, v in enumerate(f["variants"]):
                 if r["region"] is not None:
                     c, a, b = r["region"]
-                    if v["chrom"] != c or (a is not None and v["pos"] < a) or (b is not None and v["pos"] > b):
+                    if written_chrom[v["id"]] != c or (a is not None and v["pos"] < a) or (b is not None and v["pos"] > b):
                         continue
                 if r["ids"] is not None and v["id"] not in r["ids"]:
                     continue
@@ -204,6 +210,15 @@ def oracle(case, obs):
                     return f"{kind} streaming iterator with {r} yielded {itv}, bulk read gives {wv}"
                 if want == {"empty": True} and it["samples"] and itv:
                     return f"{kind} streaming iterator with {r} yielded {itv} for an empty match"
+                if want != {"empty": True}:
+                    # the records are kept (list(...)) and looked at afterwards: each must still hold its own genotypes
+                    if it["samples"] != want["samples"]:
+                        return f"{kind} streaming iterator with {r} reports samples {it['samples']}, bulk read gives {want['samples']}"
+                    for j, col in enumerate(it["cols"]):
+                        gc = [pg_norm(list(c) + [1] if len(c) == 2 else list(c)) for c in col]
+                        wc = [want["data"][i][j] for i in range(len(want["samples"]))]
+                        if gc != wc:
+                            return f"{kind} streaming iterator with {r}: record {itv[j]} (kept and read after the iteration) holds {gc}, bulk read gives {wc}"
         if C.canon(norm_read(e["vcf"])) != C.canon(norm_read(e["pgen"])):
             return f"restriction {r}: VCF gives {norm_read(e['vcf'])}, PGEN gives {norm_read(e['pgen'])}"
     return None
@@ -402,7 +417,7 @@ CHECK = Check(
             setup=setup,
             teardown=teardown,
             nontrivial=lambda c, o: C.jdump([c["variants"], c["data"]]) if len(c["variants"]) > 1 else None,
-            rule="seeded random contents written independently (harness writers) as indexed vcf.gz and as PGEN; 10 restrictions per content: regions 'c', 'c:a-b', 'c:a-' with a, b on / next to variant positions and absent contigs, sample subsets incl. unknown and all-unknown, variant-ID subsets incl. unknown and empty match, max_variants 0..p+1, PGEN chunk sizes; bulk read and streaming iterator, both formats; compared with the Lean restriction model and with full-read-then-subset; every 6th content has multi-base REF alleles (KF1 territory)",
+            rule="seeded random contents written independently (harness writers) as indexed vcf.gz and as PGEN; 10 restrictions per content: regions 'c', 'c:a-b', 'c:a-' with a, b on / next to variant positions, absent contigs and contig names longer than 10 characters, sample subsets incl. unknown and all-unknown, variant-ID subsets incl. unknown and empty match, max_variants 0..p+1, PGEN chunk sizes; bulk read and streaming iterator (records collected first and compared afterwards, genotypes included), both formats; compared with the Lean restriction model and with full-read-then-subset; every 6th content has multi-base REF alleles (KF1 territory)",
         ),
         Section(
             name="subset_loaded",
